@@ -7,7 +7,8 @@
 
 From stdpp Require Import gmap list.
 From Coq Require Import NArith Lia.
-From DC Require Import Ts Orswot OrswotInv OrswotLww OrswotTimely Actor ActorProofs Cluster ClusterProofs Handle.
+From DC Require Import Ts Orswot OrswotInv OrswotLww OrswotTimely Actor ActorProofs Cluster ClusterProofs Handle
+  Distributor DistributorProofs.
 Open Scope N_scope.
 
 (** The call returns Ok exactly when every selected replica acknowledged; otherwise it
@@ -82,6 +83,52 @@ Theorem C06_register_after_round_refuted :
   let '(effs, res) := client_call false [1; 2]%nat (fun j => Nat.eqb j 1) in
   res = DConsistencyFailure 1 2 /\ In ELocal effs /\ ~ In ERegister effs.
 Proof. exact register_after_round_refuted. Qed.
+
+(** "...and still replicated later": the task distributor's loop ([Distributor.v]).  A mutation
+    registered before a tick of the batching interval leaves with that tick's batch - together
+    with, and in the order of, everything registered since the previous tick - addressed to every
+    member the live map holds once the membership changes handed over before the tick are applied. *)
+Theorem C06_registered_mutation_leaves_with_the_next_batch :
+  forall s ops m,
+    DMutation m ∈ ops ->
+    exists x, (d_tick (foldl d_register s ops)).2 = Some x /\
+              m ∈ s_batch x /\
+              s_batch x = mutations_of (d_queue s ++ ops) /\
+              s_to x = map_to_list (live_of (d_live s) (d_queue s ++ ops)).
+Proof. exact registered_goes_out. Qed.
+
+(** Over any history of registrations, membership changes and ticks: the batches sent so far,
+    followed by what is still queued, are the registered mutations in registration order -
+    nothing is lost, duplicated, merged or reordered. *)
+Theorem C06_batches_partition_the_registered_mutations :
+  forall s0 es,
+    concat (map s_batch (d_run s0 es).2) ++ mutations_of (d_queue (d_run s0 es).1)
+    = mutations_of (d_queue s0) ++ mutations_of (ops_of es).
+Proof. exact batches_partition_the_stream. Qed.
+
+(** The batch on the cluster: every member of the live map whose link is up applies the whole
+    batch ([C06_failed_write_is_replicated_later] says what that does to its state); every other
+    node is untouched. *)
+Theorem C06_batch_reaches_every_reachable_live_member :
+  forall (up : nat -> bool) (live : gmap nat N) ms c j,
+    (forall i a, live !! i = Some a -> (i < length c)%nat) ->
+    node (crun c (tick_events up (mkSend (map_to_list live) ms))) j =
+    if decide (is_Some (live !! j) /\ up j = true)
+    then apply_reqs (node c j) (batch_requests ms) else node c j.
+Proof. exact tick_on_cluster. Qed.
+
+(** Non-vacuity of the distributor theorems: two members join, a put and a delete are registered,
+    the tick sends both in order to both members; then member 2 changes its address (one change
+    lists it as left and joined), a second put goes to the new address; an idle tick sends nothing. *)
+Example C06_nonvacuous_distributor :
+  let p := MPut (mkDoc 7 100 1) in
+  let d := MDel (mkMeta 8 101) in
+  let q := MPut (mkDoc 9 102 2) in
+  let es := [EOp (DMember [(1%nat, 11); (2%nat, 12)] []); EOp (DMutation p); EOp (DMutation d); ETick;
+             EOp (DMember [(2%nat, 15)] [(2%nat, 12)]); EOp (DMutation q); ETick; ETick] in
+  map (fun x => (s_to x, s_batch x)) (d_run d_init es).2
+  = [([(1%nat, 11); (2%nat, 12)], [p; d]); ([(1%nat, 11); (2%nat, 15)], [q])].
+Proof. vm_compute. reflexivity. Qed.
 
 (** Non-vacuity: 4 nodes, level Quorum (2 others required), one selected replica fails. *)
 Example C06_nonvacuous :
